@@ -410,6 +410,30 @@ func buildCanon(p *Program) {
 				}
 			}
 			if len(cands) == 0 {
+				// renamed and moved to another receiver at once: the same number of parameters (receiver counted) and
+				// of results, and a body that clearly is the baseline's (shared string constants, callees, fields)
+				nres := func(sig string) int {
+					i := strings.LastIndex(sig, ") ")
+					if i < 0 {
+						return 0
+					}
+					return strings.Count(sig[i+2:], ",") + 1
+				}
+				for _, cf := range cp.Funcs {
+					if baseFunc[cf.Key] || taken[cf.Key] || len(bf.Print) < 4 {
+						continue
+					}
+					if strings.Count(flatSig(cf.Sig), ",") != strings.Count(flatSig(bf.Sig), ",") || nres(cf.Sig) != nres(bf.Sig) {
+						continue
+					}
+					cands = append(cands, cf)
+					prints = append(prints, cf.Print)
+				}
+				if len(cands) == 1 && jaccard(bf.Print, prints[0]) < 0.4 {
+					cands, prints = nil, nil
+				}
+			}
+			if len(cands) == 0 {
 				continue
 			}
 			if i := pickBest(bf.Print, prints); i >= 0 {
